@@ -10,7 +10,7 @@
      algorithm are such a pair, and the final test [2*d*Q2 <= d0] picks the closer one;
    - [limit_den_large]: which candidate [limit_den] returns, with the outcome of the test;
    - [limit_den_closest]: the statement in Q. *)
-From Coq Require Import List ZArith QArith Qreduction Qabs Bool Lia.
+From Coq Require Import List ZArith QArith Qreduction Qabs Bool Lia Lqa.
 From VK Require Import Base Core BallotCtor.
 From VK.Proofs Require Import C11_limit_den.
 Import ListNotations.
@@ -41,20 +41,26 @@ Proof.
   { destruct (Z_le_gt_dec u 0) as [H|H]; [left; exact H|].
     destruct (Z_le_gt_dec v 0) as [H'|H']; [right; exact H'|]. exfalso.
     assert (QB <= QB * u) by nia. assert (QC <= QC * v) by nia. lia. }
-  assert (Haq : 0 < a * q) by nia. assert (Hbq : 0 < b * q) by nia.
+  assert (Haq : 0 < a * q) by (apply Z.mul_pos_pos; lia).
+  assert (Hbq : 0 < b * q) by (apply Z.mul_pos_pos; lia).
+  clearbody t u v. clear Ea Eb Edet Hquv.
   destruct Huv as [Hu0|Hv0].
   - (* p/q >= C *)
-    assert (Hdu : d0 * u <= 0) by nia.
+    assert (Hdu : d0 * u <= 0) by (apply Z.mul_nonneg_nonpos; lia).
     assert (H1 : a * q <= t * QC) by lia.
-    assert (Ht : 0 < t) by nia.
+    assert (Ht : 0 < t).
+    { destruct (Z_le_gt_dec t 0) as [Hn|Hp]; [|lia]. exfalso.
+      assert (t * QC <= 0) by (apply Z.mul_nonpos_nonneg; lia). lia. }
     rewrite (Z.abs_eq t) by lia. split; intros Hc; [exact H1|].
     assert (H2 : (b * QC) * q <= (a * QB) * q) by (apply Z.mul_le_mono_nonneg_r; lia).
     assert (H3 : (a * q) * QB <= (t * QC) * QB) by (apply Z.mul_le_mono_nonneg_r; lia).
     apply (Z.mul_le_mono_pos_l _ _ QC HQC). lia.
   - (* p/q <= B *)
-    assert (Hdv : d0 * v <= 0) by nia.
+    assert (Hdv : d0 * v <= 0) by (apply Z.mul_nonneg_nonpos; lia).
     assert (H1 : b * q <= (- t) * QB) by lia.
-    assert (Ht : t < 0) by nia.
+    assert (Ht : t < 0).
+    { destruct (Z_le_gt_dec 0 t) as [Hn|Hp]; [|lia]. exfalso.
+      assert (0 <= t * QB) by (apply Z.mul_nonneg_nonneg; lia). lia. }
     rewrite (Z.abs_neq t) by lia. split; intros Hc; [|exact H1].
     assert (H2 : (a * QB) * q <= (b * QC) * q) by (apply Z.mul_le_mono_nonneg_r; lia).
     assert (H3 : (b * q) * QC <= (- t * QB) * QC) by (apply Z.mul_le_mono_nonneg_r; lia).
@@ -156,7 +162,7 @@ Qed.
 Lemma Qabs_dist_le : forall (n0 : Z) (d0 : positive) (P Qd p : Z) (q : positive),
   0 < Qd ->
   Z.abs (P * Zpos d0 - n0 * Qd) * Zpos q <= Z.abs (p * Zpos d0 - n0 * Zpos q) * Qd ->
-  (Qabs (n0 # d0 - P # Z.to_pos Qd) <= Qabs (n0 # d0 - p # q))%Q.
+  (Qabs ((n0 # d0) - (P # Z.to_pos Qd)) <= Qabs ((n0 # d0) - (p # q)))%Q.
 Proof.
   intros n0 d0 P Qd p q HQd H.
   unfold Qle, Qabs, Qminus, Qplus, Qopp. cbn [Qnum Qden].
@@ -175,7 +181,7 @@ Local Close Scope Z_scope.
 
 (* the main theorem *)
 Theorem limit_den_closest : forall (x : Q) (p : Z) (q : positive),
-  (Zpos q <= 1000000)%Z -> Qabs (x - limit_den x) <= Qabs (x - p # q).
+  (Zpos q <= 1000000)%Z -> Qabs (x - limit_den x) <= Qabs (x - (p # q)).
 Proof.
   intros x p q Hq. change 1000000%Z with max_den in Hq.
   destruct (Z_le_gt_dec (Zpos (Qden (Qred x))) max_den) as [Hs|Hb].
@@ -187,7 +193,7 @@ Proof.
     destruct (limit_den_large x Hb') as [p0 [q0 [p1 [q1 [n [d [J [Hout E]]]]]]]].
     remember (limit_den x) as r eqn:Er. clear Er.
     assert (Ex : x - r == Qred x - r) by (rewrite (Qred_correct x); reflexivity).
-    assert (Ey : x - p # q == Qred x - p # q) by (rewrite (Qred_correct x); reflexivity).
+    assert (Ey : x - (p # q) == Qred x - (p # q)) by (rewrite (Qred_correct x); reflexivity).
     rewrite Ex, Ey. clear Ex Ey.
     destruct (Qred x) as [n0 d0]. cbn [Qnum Qden] in *.
     destruct (exit_closest _ _ _ _ _ _ _ _ Hb' J Hout)
@@ -209,7 +215,7 @@ Qed.
 Theorem limit_den_argmin : forall x : Q,
   (Zpos (Qden (limit_den x)) <= 1000000)%Z /\
   forall (p : Z) (q : positive), (Zpos q <= 1000000)%Z ->
-    Qabs (x - limit_den x) <= Qabs (x - p # q).
+    Qabs (x - limit_den x) <= Qabs (x - (p # q)).
 Proof.
   intros x. split; [apply limit_den_bound|apply limit_den_closest].
 Qed.
@@ -224,10 +230,20 @@ Proof.
   - left. rewrite <- (Qopp_involutive a), H. apply Qopp_involutive.
 Qed.
 
+(* elementary, but it says what a tie looks like: the only other fraction that can be as close
+   as the result is its mirror image about the argument *)
+Theorem limit_den_tie_cases : forall (x : Q) (p : Z) (q : positive),
+  Qabs (x - (p # q)) == Qabs (x - limit_den x) ->
+  (p # q) == limit_den x \/ (p # q) == 2 * x - limit_den x.
+Proof.
+  intros x p q H. remember (limit_den x) as r eqn:Er. clear Er.
+  destruct (Qabs_eq_cases _ _ H) as [E|E]; [left|right]; lra.
+Qed.
+
 (* a float weight / score *)
 Theorem conv_weight_float_closest : forall (v : Q) (p : Z) (q : positive),
   (Zpos q <= 1000000)%Z ->
-  Qabs (v - conv_weight (PFloat v)) <= Qabs (v - p # q).
+  Qabs (v - conv_weight (PFloat v)) <= Qabs (v - (p # q)).
 Proof.
   intros v p q Hq. cbn [conv_weight pynum_val]. apply limit_den_closest. exact Hq.
 Qed.
@@ -236,7 +252,7 @@ Qed.
    fraction to the value written by the caller, when that value went through limit_denominator *)
 Theorem conv_weight_closest : forall (w : pynum) (p : Z) (q : positive),
   (Zpos q <= 1000000)%Z ->
-  Qabs (pynum_val w - conv_weight w) <= Qabs (pynum_val w - p # q).
+  Qabs (pynum_val w - conv_weight w) <= Qabs (pynum_val w - (p # q)).
 Proof.
   intros [z|f|f] p q Hq; cbn [conv_weight pynum_val].
   - apply limit_den_closest. exact Hq.
@@ -252,7 +268,7 @@ Theorem conv_scores_closest : forall (d : list (cand * pynum)) (c : cand) (s : Q
   exists x : pynum, In (c, x) d /\ s = limit_den (pynum_val x) /\
     (Zpos (Qden s) <= 1000000)%Z /\
     forall (p : Z) (q : positive), (Zpos q <= 1000000)%Z ->
-      Qabs (pynum_val x - s) <= Qabs (pynum_val x - p # q).
+      Qabs (pynum_val x - s) <= Qabs (pynum_val x - (p # q)).
 Proof.
   intros d c s Hin. apply conv_scores_in in Hin. destruct Hin as [x [Hx [Es _]]].
   exists x. split; [exact Hx|]. split; [exact Es|]. subst s.
